@@ -43,7 +43,14 @@ def gen_harness(preds, e, shared=True, kinds=None):
         a = p["a"]
         rn = len(p["ret"])
         rt = {"f32": "F32", "f64": "F64"}.get(p["op"].split(".")[0], CT.get(rn, "U32"))
-        if p["kind"] in ("load", "aload"):
+        if p["kind"] == "seq":
+            # one straight-line piece of code with a constant address (what an optimising compiler may reorder or forward if the accessors
+            # let it think accesses of different widths cannot overlap)
+            rn1 = rn // 2
+            rt1 = CT.get(rn1, "U32")
+            o.append("  { struct { %s r1, r3; } r; r.r1 = %s(m, %d); %s(m, %d, %s); r.r3 = %s(m, %d); dump(%d, m, &r, %d); }" % (
+                rt1, fn, a, p["op2"].replace(".", "_"), a, c_val(p["op2"], p["v"]), fn, a, idx, rn))
+        elif p["kind"] in ("load", "aload"):
             o.append("  { %s r = %s(m, %d); dump(%d, m, &r, %d); }" % (rt, fn, a, idx, rn))
         elif p["kind"] in ("store", "astore"):
             o.append("  { %s(m, %d, %s); dump(%d, m, NULL, 0); }" % (fn, a, c_val(p["op"], p["v"]), idx))
@@ -67,12 +74,12 @@ def main():
         # a shared and a non-shared memory with the threads implementation, and a build without one (where only the plain and the
         # atomic loads and stores exist for the big-endian configuration)
         variants = [("shared", True, ["-DWASM_THREADS_PTHREADS"], None), ("plainmem", False, ["-DWASM_THREADS_PTHREADS"], None),
-                    ("nothreads", False, [], ("load", "store", "aload", "astore", "buffer"))]
+                    ("nothreads", False, [], ("load", "store", "aload", "astore", "buffer", "seq"))]
         for e, defs, (vname, shared, tdefs, kinds) in [(e_, d_, v_) for e_, d_ in (("LE", []), ("BE", ["-DWASM_ENDIAN=1"])) for v_ in variants]:
-            for cc, opt in (("gcc", "-O1"), ("clang", "-O2")) if tier != "quick" else (("gcc", "-O1"),):
+            for cc, opt in (("gcc", "-O1"), ("clang", "-O2"), ("gcc", "-O2"), ("gcc", "-O3"), ("gcc", "-Os")) if tier != "quick" else (("gcc", "-O1"), ("gcc", "-O2")):
                 src = os.path.join(wd, "h_%s_%s.c" % (e, vname))
                 open(src, "w").write(gen_harness(preds, e, shared, kinds))
-                exe = os.path.join(wd, "h_%s_%s_%s" % (e, vname, cc))
+                exe = os.path.join(wd, "h_%s_%s_%s%s" % (e, vname, cc, opt))
                 rc, so, se = run([cc, opt, "-w", "-I", os.path.join(REPO, "w2c2"), *tdefs, *defs, src, "-o", exe, "-lm", "-lpthread"], timeout=300)
                 if rc != 0 and vname == "nothreads":
                     continue          # this tree offers no atomic accessors without a threads implementation: nothing to compare
